@@ -422,6 +422,11 @@ theorem step_good (cfg : Cfg) (hd : HD K P) (s : State K P) (op : Op K P) : AllG
         · unfold opProps; crack <;> exact AllGood.nil _
         · exact AllGood.nil _
         · exact opConvertWO_good _ _ _
+        · unfold opDeriveCache; crack <;> exact AllGood.nil _
+        · unfold opRename; crack
+          all_goals first
+            | exact AllGood.nil _
+            | exact AllGood.cons (good_acctRowPut _ _ _ _) (AllGood.nil _)
 
 theorem foldl_good (cfg : Cfg) (hd : HD K P) (ops : List (Op K P)) :
     ∀ (acc : State K P × List Row), AllGood cfg.o1 acc.2 →
